@@ -403,6 +403,56 @@ def nesting_and_limit(b, v, tier):
     return limit, len(seen)
 
 
+def accumulation(b, v, tier):
+    """Bad lines in bulk, then ordinary ones: whatever a malformed line costs, it costs that line only - not the 2000th line after it.
+    (History inside one run: parser state that an error path forgets to restore, counters, pools, buffers.)"""
+    wd = tempfile.mkdtemp(prefix="c07acc-", dir=b.root)
+    pool = sl.Pool(v.seed)
+    goods = [pool.obj_line("cmd", j, 5100000 + j) for j in range(4)]
+    cfgs = [sl.SCfg("plain", [], {}), sl.SCfg("all", ["-n", "-b", "-i", "-w", "-f", sl.NS], {})]
+    singles = sl.Singles(b, wd)
+    reps = 2500 if tier == "quick" else 12000
+    base = pool.obj_line("cmd", 1, 5200000)
+    families = {
+        "lines cut off inside several open containers": lambda i: base[: max(40, len(base) - 20 - (i % 37))].replace("5200000", str(5200000 + i)),
+        "unterminated runs of '['": lambda i: '{"id":%d,"x":' % (5300000 + i) + "[" * (3400 + i % 5),
+        "unterminated runs of '{\"a\":'": lambda i: '{"id":%d,"x":' % (5400000 + i) + '{"a":' * (1500 + i % 5),
+        "unbalanced closers": lambda i: '{"id":%d,"x":[1,2]]}}' % (5500000 + i),
+        "bad tokens inside nested containers": lambda i: '{"id":%d,"a":{"b":[{"c":[nope%d]}]}}' % (5600000 + i, i),
+        "unterminated strings inside containers": lambda i: '{"id":%d,"a":[{"b":"no end %d' % (5700000 + i, i),
+        "top-level arrays and scalars": lambda i: ["[[[[%d]]]]" % i, '"s%d"' % i, "%d" % i, "null"][i % 4],
+    }
+    n = 0
+    for cfg in cfgs:
+        singles.need(cfg, goods)
+        exp = b"".join(singles.get(cfg, g)["out"] for g in goods)
+        for what, gen in families.items():
+            count = reps if "runs of" not in what else max(8, reps // 300)
+            lines = [goods[0]] + [gen(i) for i in range(count)] + goods[1:]
+            data = ("\n".join(lines) + "\n").encode("utf-8")
+            for ic in ("file", "stdin"):
+                r = sl.cli_channel_run(b, data, cfg, ic, "stdout", wd, "acc", timeout=600)
+                n += 1
+                v.count()
+                v.nontrivial(("accumulation", what, cfg.name, ic))
+                got = r["out"] or b""
+                rep = {"family": what, "malformed_lines": count, "flags": cfg.flags, "input_channel": ic, "exit": r["rc"], "stderr": r["stderr"][:300],
+                       "ordinary_lines_expected": len(goods), "output_lines": got.count(b"\n"), "example_malformed_line": lines[1][:200]}
+                if crash_signature(r["rc"], r["stderr"]):
+                    v.violation("many malformed lines in one run crash it (%s)" % what, rep)
+                elif r["rc"] != 0:
+                    v.violation("many malformed lines in one run stop it with an error (%s)" % what, rep)
+                else:
+                    whole, rest = sl.out_lines(got)
+                    mine = [w + b"\n" for w in whole if any(str(5100000 + j).encode() in w for j in range(4))]
+                    if b"".join(mine) != exp:
+                        v.violation("ordinary lines that follow many malformed lines are lost or altered (%s)" % what, rep)
+                    elif len(whole) > len(goods) + count:
+                        v.violation("malformed lines yield more than one output line each (%s)" % what, rep)
+    shutil.rmtree(wd, ignore_errors=True)
+    return n
+
+
 def run(tier):
     v = common.Verdict(PID, tier, "model_checking")
     b = common.build()
@@ -452,10 +502,11 @@ def run(tier):
     nmut = mutation_driver(b, v, tier, v.seed)
     nhostile = hostile_names(b, v, tier)
     limit, nprobes = nesting_and_limit(b, v, tier)
+    nacc = accumulation(b, v, tier)
     v.cov.update({"states": t.distinct + t2.distinct + t3.distinct + tstates, "transitions": t.generated + t2.generated + t3.generated,
                   "traces_validated_against_impl": acc, "traces_rejected": len(rej), "exhaustive": tier == "thorough",
                   "stream_terminal_states_replayed": len(recs), "walker_cases": rp.records, "walker_flag_sets": [c.desc() for c in cs],
-                  "walker_crashed_lines": rp.crashes, "mutated_lines": nmut, "hostile_name_lines": nhostile, "measured_reader_limit_bytes": limit, "nesting_probes": nprobes,
+                  "walker_crashed_lines": rp.crashes, "mutated_lines": nmut, "hostile_name_lines": nhostile, "measured_reader_limit_bytes": limit, "nesting_probes": nprobes, "accumulation_runs": nacc,
                   "line_kinds": list(KINDS),
                   "rule": "(1) every sequence of <= 3 line kinds incl. over-long lines (quick: all of length <= 2 and 1500 of length 3) through the real CLI, "
                           "judged: no crash signature, exit 0 unless a line exceeds the limit (then exit != 0 with a message and the line neither passed through "
